@@ -46,7 +46,7 @@ def mk(mode, S, cpu=None, seed=1, circ="bell", start="fork", family=""):
 def run_real(cases):
     """runs the cases in subprocesses (one per start method); returns observations in case order"""
     out = [None] * len(cases)
-    for sm in ("fork", "spawn"):
+    for sm in ("fork", "spawn", "forkserver"):
         idx = [i for i, c in enumerate(cases) if c["start"] == sm]
         if not idx:
             continue
@@ -360,6 +360,14 @@ def gen_cases(ctx):
     sp = [(2, 1), (5, 4), (9, 3)] if not ctx.thorough else [(1, 1), (2, 1), (3, 4), (5, 4), (9, 3), (12, 15), (24, 15), (17, 7), (40, 10)]
     for S, cpu in sp:
         cases.append(mk("par", S, cpu, seed=rng.randrange(2 ** 31), start="spawn", family="par-spawn"))
+    # fork server with numpy preloaded: every worker inherits the SERVER's generator (not the parent's)
+    fs = [(2, 1), (6, 4), (12, 3)] if not ctx.thorough else [(1, 1), (2, 1), (3, 4), (6, 4), (12, 3), (12, 15), (24, 15), (17, 7), (40, 10)]
+    for S, cpu in fs:
+        cases.append(mk("par", S, cpu, seed=rng.randrange(2 ** 31), circ=rng.choice(list(CIRCUITS)), start="forkserver",
+                        family="par-forkserver"))
+    c = mk("par", 7, 4, seed=rng.randrange(2 ** 31), start="forkserver", family="par-forkserver-run-twice")
+    c["again"] = True
+    cases.append(c)
     return cases
 
 
@@ -464,7 +472,8 @@ def main(ctx):
                    "parallel mode, at least two worker processes that actually executed shots (observed, not requested)")
     cov["runs"] = {"sequential": sum(c["mode"] == "seq" for c in cases),
                    "parallel_fork": sum(c["mode"] == "par" and c["start"] == "fork" for c in cases),
-                   "parallel_spawn": sum(c["start"] == "spawn" for c in cases), "malformed": len(bad_cases)}
+                   "parallel_spawn": sum(c["start"] == "spawn" for c in cases),
+                   "parallel_forkserver_preloaded": sum(c["start"] == "forkserver" for c in cases), "malformed": len(bad_cases)}
     cov["shot_counts"] = sorted({c["S"] for c in cases})
     cov["pool_sizes"] = sorted({n_of(c["cpu"]) for c in cases if c["mode"] == "par"})
     cov["workers_that_executed_shots_histogram"] = hist(lambda c, a, o: a["workers_used"] if c["mode"] == "par" else "seq")
